@@ -73,7 +73,7 @@ def run(R):
         m = re.match(r"layer2\.CreateDappProposal:requested=\w+:effective=(\w+)$", w)
         if m:
             dapp = PERMS.get(m.group(1), 0)
-    n = 1000 if R.tier == "quick" else 3000
+    n = 600 if R.tier == "quick" else 3000
     obs = observe(R, n, dapp)
     total = steps = 0
     if obs:
